@@ -780,6 +780,9 @@ func breaks(bound string, f reflect.Value) (bool, string, bool) {
 	}
 	s := fmt.Sprint(x)
 	lim, _ := strconv.ParseFloat(param, 64)
+	if f.Kind() == reflect.Float32 {
+		lim = float64(float32(lim)) // a float32 is compared with what the bound is as a float32
+	}
 	switch name {
 	case "min":
 		return x < lim, s, viaPtr
